@@ -1053,6 +1053,10 @@ func CheckTypedReadback(rep Reporter, eng Engine, ts *rs.TypeSystem, t *rs.Type,
 // out next, or at the map's Finish — and after a refusal that came before Finish the remaining entries go in
 // and the node reads as if the refused call had not happened.
 func CheckRejectedKey(rep Reporter, eng Engine, ts *rs.TypeSystem, t *rs.Type, tv model.Val, reprLevel bool, rng *fw.RNG) {
+	if t.Kind == "union" && (!reprLevel || t.UnionRepr == "keyed") {
+		checkUnionSecondEntry(rep, eng, ts, t, tv, reprLevel, rng)
+		return
+	}
 	isStruct := t.Kind == "struct" && (!reprLevel || t.StructRepr == "map")
 	if (t.Kind != "map" && !isStruct) || len(tv.M) == 0 {
 		return
@@ -1351,5 +1355,110 @@ func CheckOtherLevelNames(rep Reporter, eng Engine, ts *rs.TypeSystem, t *rs.Typ
 				mustMiss(f.Name)
 			}
 		}
+	}
+}
+
+// checkUnionSecondEntry: a union is assembled as a single-entry map (type level: member name; keyed
+// representation: discriminant). After the one entry has been accepted, a second entry — the same key again,
+// or another member's — must be refused by the key call, the value handed out for it, or Finish (the sequence
+// ends at the refusal: what a union assembler is good for afterwards the contract does not say). Whichever member comes first (round-4 seed
+// C12-12: the "a member was already assembled" test confusing member index 0 with "none").
+func checkUnionSecondEntry(rep Reporter, eng Engine, ts *rs.TypeSystem, t *rs.Type, tv model.Val, reprLevel bool, rng *fw.RNG) {
+	typed, reprP := eng.Proto(t.Name)
+	proto, level := typed, "type-level"
+	in := ts.TypeInput(t, tv)
+	keyOf := func(member string) string { return member }
+	if reprLevel {
+		r, err := ts.ReprOf(t, tv)
+		if err != nil || reprP == nil {
+			return
+		}
+		proto, level, in = reprP, "representation-level", r
+		keyOf = func(member string) string { return t.Discr[member] }
+	}
+	if proto == nil || in.K != model.KMap || len(in.M) != 1 {
+		return
+	}
+	second := in.M[0].K
+	secondVal := in.M[0].V
+	if len(t.Members) > 1 && rng.Bool() {
+		// another member, with a value of its own
+		for _, m := range t.Members {
+			if keyOf(m) != in.M[0].K {
+				mv := schemagen.GenValue(rng, ts, ts.T(m), 0)
+				v2 := ts.TypeInput(ts.T(m), mv)
+				if reprLevel {
+					r2, err := ts.ReprOf(ts.T(m), mv)
+					if err != nil {
+						continue
+					}
+					v2 = r2
+				}
+				second, secondVal = keyOf(m), v2
+				break
+			}
+		}
+	}
+	form := rng.Intn(2)
+	sig := eng.Name() + ":" + level
+	ctx := func() string {
+		return fmt.Sprintf("engine %s, union %s (%s), first entry %q, second entry %q through %s", eng.Name(), t.Name, level, in.M[0].K, second, []string{"AssembleEntry", "AssembleKey().AssignString"}[form])
+	}
+	var refused bool
+	var node datamodel.Node
+	var panicked string
+	func() {
+		defer func() {
+			if r := recover(); r != nil {
+				panicked = fmt.Sprintf("%v\n%s", r, clip(string(debug.Stack()), 1500))
+			}
+		}()
+		nb := proto.NewBuilder()
+		ma, err := nb.BeginMap(1)
+		if err != nil {
+			refused = true
+			return
+		}
+		va, err := ma.AssembleEntry(in.M[0].K)
+		if err != nil {
+			refused = true // C09's business: the FIRST entry is legal
+			return
+		}
+		mt := t
+		_ = mt
+		if err := assemble(va, in.M[0].V); err != nil {
+			refused = true
+			return
+		}
+		// the second entry
+		var va2 datamodel.NodeAssembler
+		if form == 0 {
+			va2, err = ma.AssembleEntry(second)
+		} else {
+			if err = ma.AssembleKey().AssignString(second); err == nil {
+				va2 = ma.AssembleValue()
+			}
+		}
+		if err != nil {
+			refused = true
+			return // the contract pins nothing about a union assembler after it has refused an entry
+		} else if err := assemble(va2, secondVal); err != nil {
+			refused = true
+			return
+		}
+		if err := ma.Finish(); err != nil {
+			refused = true
+			return
+		}
+		if !refused {
+			node = nb.Build()
+		}
+	}()
+	rep.Count("union_second_entry_sequences", 1)
+	switch {
+	case panicked != "":
+		rep.Deviate("C12:union:second-entry:panic:"+sig, "a second entry offered to a union assembler panicked: "+panicked+"\n"+ctx())
+	case !refused && node != nil:
+		rep.Deviate("C12:union:second-entry-accepted:"+sig, fmt.Sprintf("a union assembler accepted a second entry and built %s\n%s", clip(ReadTyped(node).Dump(), 300), ctx()))
 	}
 }
